@@ -120,6 +120,30 @@ def distreg_case(col, rng):
     col.add(None if ok else {"sig": "native::totals::distreg", "what": f"DistRegBuilder model: log_prob={prob}, lik+prior={lik + prior}, sum of dist nodes={dist_sum}, flags exactly-one={flags_ok}", "input": {"model": "distreg"}})
 
 
+def named_update_case(col, rng):
+    """totals refreshed through the NAMED update (auto-update off) on a model with a weak variable that carries a distribution"""
+    x_np = rng.normal(size=5).astype(np.float32)
+    x = lsl.param(np.float32(0.3), lsl.Dist(tfd.Normal, loc=0.0, scale=2.0), name="x")
+    z = lsl.Var(lsl.Calc(lambda v: 2.0 * v, x), lsl.Dist(tfd.Normal, loc=1.0, scale=0.5), name="z")
+    z.parameter = True
+    mid = lsl.Var(lsl.Calc(lambda v: v + 1.0, x), name="mid")
+    r = lsl.Var(lsl.Calc(lambda m: jnp.asarray(x_np) - m, mid), lsl.Dist(tfd.Normal, loc=0.0, scale=1.5), name="r")
+    r.observed = True
+    model = lsl.GraphBuilder().add(z, r).build_model()
+    model.auto_update = False
+    bad = None
+    for v in (1.7, -0.6):
+        model.vars["x"].value = np.float32(v)
+        model.update("_model_log_prob", "_model_log_lik", "_model_log_prior")
+        prior = float(tfd.Normal(0.0, 2.0).log_prob(np.float32(v))) + float(tfd.Normal(1.0, 0.5).log_prob(np.float32(2 * v)))
+        lik = float(jnp.sum(tfd.Normal(0.0, 1.5).log_prob(jnp.asarray(x_np) - (np.float32(v) + 1.0))))
+        got = (float(model.log_prior), float(model.log_lik), float(model.log_prob))
+        if not np.allclose(got, (prior, lik, prior + lik), rtol=1e-4, atol=1e-3):
+            bad = f"x = {v}, named update with auto-update off: (log_prior, log_lik, log_prob) = {got}, joint density gives {(prior, lik, prior + lik)}"
+            break
+    col.add({"sig": "native::totals::named_update_weak_variable", "what": bad, "input": {"update": ["_model_log_prob", "_model_log_lik", "_model_log_prior"], "auto_update": False}} if bad else None)
+
+
 def repeated_build_case(col, rng):
     """one builder with user-supplied total nodes, built three times (copy=True, copy=True, copy=False): every model forwards the user nodes"""
     mu = lsl.param(np.float32(rng.normal()), lsl.Dist(tfd.Normal, loc=0.0, scale=2.0), name="mu")
@@ -141,6 +165,18 @@ def repeated_build_case(col, rng):
 def bounded(tier, seed):
     rng = np.random.default_rng(seed)
     col = util.Collector()
+    try:
+        from rtc.c01 import inplace_case
+        sub = util.Collector()
+        for au in (True, False):
+            inplace_case(sub, au)
+        col.add({**sub.violations[0], "sig": "native::totals::in_place_mutation"} if sub.violations else None)
+    except Exception as e:
+        col.add({"sig": f"native::totals::exception::{type(e).__name__}", "what": str(e)[:200], "input": {"scenario": "in-place mutation"}})
+    try:
+        named_update_case(col, rng)
+    except Exception as e:
+        col.add({"sig": f"native::totals::exception::{type(e).__name__}", "what": str(e)[:200], "input": {"scenario": "named update, weak variable with distribution"}})
     try:
         repeated_build_case(col, rng)
     except Exception as e:
